@@ -400,6 +400,55 @@ def run(ctx):
                    "decoder accepts %s for %s; encoder ORs the flag bits onto %s" % ([hex(c) for c in codes], fam, e))
         extra = [k for k, v in E.items() if v[0] == "exact" and D.get(v[1]) != k]
         ctx.ob("R3", "every constant the encoder writes is decoded back to the same kind", not extra, enc.where(), "encoder-only entries: %s" % (extra or "none"))
+    # ---------------------------------------------------------------- R4: sibling helper agreement of value codecs
+    ctx.rule("R4", "value codecs (preferred_address, endpoint_addr, link, streamid, frame_type): the encoder `put_X` and the decoder `be_X` "
+                   "are built from the same sub-codecs (put_Y used iff be_Y used, for Y in connection_id / reset_token / socket_addr / "
+                   "varint / streamid / endpoint_addr) — two helpers with different wire layouts for the same type cannot be mixed")
+    LEAF = {"connection_id", "reset_token", "socket_addr", "varint", "streamid", "endpoint_addr"}
+    PAIRS = ["preferred_address", "endpoint_addr", "link", "streamid", "frame_type"]
+    puts_, bes_ = {}, {}
+    for b_ in prog.bodies.values():
+        if b_.crate != "qbase" or b_.kind in ("const", "promoted", "closure"):
+            continue
+        last = b_.short.split("::")[-1]
+        m_ = re.match(r"put_(\w+)$", last)
+        if m_:
+            puts_.setdefault(m_.group(1), []).append(b_)
+        m_ = re.match(r"be_(\w+)$", last)
+        if m_:
+            bes_.setdefault(m_.group(1), []).append(b_)
+
+    def sub_codecs(bodies, rx):
+        out = set()
+        for b_ in bodies:
+            for bb_ in prog.with_closures(b_):
+                for i_, t_ in bb_.calls():
+                    nm_ = callee(t_) + " " + (callee_orig(t_) or "")
+                    for m_ in re.finditer(rx, nm_):
+                        out.add(m_.group(1))
+                    for k_ in t_["f"].get("fns", []):
+                        kb_ = prog.bodies.get(k_)
+                        if kb_ is not None:
+                            m_ = re.search(rx, kb_.short + " ")
+                            if m_:
+                                out.add(m_.group(1))
+        return out
+    n4 = 0
+    for name in PAIRS:
+        if name not in puts_ or name not in bes_:
+            ctx.ob("R4", "anchor:put_%s / be_%s" % (name, name), False, "", "encoder or decoder not found")
+            continue
+        n4 += 1
+        for b_ in puts_[name] + bes_[name]:
+            ctx.touch(b_)
+        e_ = (sub_codecs(puts_[name], r"put_(\w+?)[ $>]|put_(\w+)$") & LEAF) - {name}
+        e_ |= set(x for x in sub_codecs(puts_[name], r"::put_(\w+) ") if x in LEAF and x != name)
+        d_ = (sub_codecs(bes_[name], r"::be_(\w+) ") & LEAF) - {name}
+        ctx.ob("R4", "%s|encoder and decoder use the same sub-codecs" % name, e_ == d_, puts_[name][0].where(),
+               "put_%s is built from put_{%s}; be_%s from be_{%s} — e.g. put_socket_addr writes port-then-address (the ADD_ADDRESS layout) "
+               "while the preferred_address parameter is address-then-port: same size, different value after decoding"
+               % (name, ",".join(sorted(e_)), name, ",".join(sorted(d_))))
+    ctx.floor("R4", "value codec pairs compared", n4, 5)
     ctx.assume("put_varint writes exactly VarInt::encoding_size() bytes; put_connection_id writes 1 + len (value-level)")
 
 
